@@ -38,6 +38,20 @@ def loop_ordinal(func, node):
     return cache[id(node)]
 
 
+def _pick_spec(table, o, node):
+    """the loop contract for the loop with ordinal `o`.  A loop contract may carry `applies=fn(ast loop node) -> bool`: it is then used
+    only for a loop it recognises, and -- registered under a STRING key instead of an ordinal -- for whichever loop of the function it
+    recognises (a loop inserted in front of it shifts the ordinals, not the contract)."""
+    spec = table.get(o)
+    if spec is not None and spec.get("applies") is not None and not spec["applies"](node):
+        spec = None
+    if spec is None:
+        for k, sp in table.items():
+            if isinstance(k, str) and sp.get("applies") is not None and sp["applies"](node):
+                return sp
+    return spec
+
+
 def loop_spec(eng, fr, node):
     """(loop contract, ordinal).  A loop contract may be a callable fn(eng, frame, loop node, ordinal) -> contract dict: it is
     computed at the loop head, from the loop as it is written (pyvc/progression.py derives invariants that way)."""
@@ -54,12 +68,12 @@ def _loop_spec(eng, fr, node):
     o = loop_ordinal(func, node)
     top = eng.cur_contract
     if top is not None and eng.cur_key == func.key and top.key == func.key:
-        return top.loops.get(o), o  # the contract being verified (several contracts of one function may be registered)
+        return _pick_spec(top.loops, o, node), o  # the contract being verified (several contracts of one function may be registered)
     c = eng.registry.get(func.key)
     if c is not None and (eng.cur_key == func.key):
-        return c.loops.get(o), o
+        return _pick_spec(c.loops, o, node), o
     if top is not None and func.key in top.inlined_loops:
-        return top.inlined_loops[func.key].get(o), o
+        return _pick_spec(top.inlined_loops[func.key], o, node), o
     return None, o
 
 
@@ -479,6 +493,42 @@ def _append_loop(eng, s, fr, seqv):
     return True
 
 
+SMALL_LENGTH_CAP = 8
+
+
+def _items_of_small_length(eng, seqv):
+    """A loop WITHOUT a sidecar invariant over a sequence whose symbolic length the path condition bounds by a small constant (the
+    rows a callee kept out of a table of five, `range(m)` with m <= 5 ...): the path forks on the length 0, 1, ..., cap and the loop
+    unrolls on each fork.  Sound (a case split on a value the path condition confines to that range); None if no such bound is known.
+    Only the quantifier-free conjuncts of the path condition are consulted."""
+    from .engine import _has_quant
+
+    try:
+        n, getter = eng.models.as_sequence(eng, seqv)
+    except Unsupported:
+        return None
+    if isinstance(n, int):
+        return [getter(Sym(z3.IntVal(j), "int")) for j in range(n)]
+    nz = n.z if isinstance(n, Sym) else zint(n)
+    qf, stack = [], list(eng.pc)
+    while stack:
+        h = stack.pop()
+        if z3.is_and(h):
+            stack.extend(h.children())
+        elif not _has_quant(h):
+            qf.append(h)
+    sol = z3.Solver()
+    sol.set("timeout", 3000)
+    sol.add(*qf)
+    sol.add(z3.Or(nz < 0, nz > SMALL_LENGTH_CAP))
+    if sol.check() != z3.unsat:
+        return None
+    for k in range(SMALL_LENGTH_CAP + 1):
+        if eng.branch(eng.sbool(nz == k)):
+            return [getter(Sym(z3.IntVal(j), "int")) for j in range(k)]
+    raise PathEnd()  # unreachable: the length is confined to 0..cap
+
+
 def exec_for(eng, s, fr):
     spec, o = loop_spec(eng, fr, s)
     seqv = eng.ev(s.iter, fr)
@@ -488,7 +538,9 @@ def exec_for(eng, s, fr):
         except Unsupported as e:
             if _append_loop(eng, s, fr, seqv):
                 return
-            raise Unsupported(f"for loop #{o} in {_fn_label(eng, fr)} iterates a symbolic sequence and has no invariant ({e})")
+            items = _items_of_small_length(eng, seqv) if eng.spec_mode == 0 else None
+            if items is None:
+                raise Unsupported(f"for loop #{o} in {_fn_label(eng, fr)} iterates a symbolic sequence and has no invariant ({e})")
         for x in items:
             eng.assign(s.target, x, fr)
             try:
